@@ -73,6 +73,8 @@ class DScn:
     rtc: bool = True
     subclass: bool = False           # observe through an empty subclass `class Sub(M): pass`
     states_dict: bool = False        # states declared through `States({id: State(...), ...})`: ids are arbitrary strings
+    override: int = -1               # >= 0: the class is written as a base class plus a subclass that *overrides* that
+                                     # state (a new State object under the same id) and declares its outgoing transitions
     placeholders: bool = False       # the events named in `event=` are id-less `Event(name=…)` objects that get their
                                      # ids from the class attributes they are assigned to (same machine, other spelling)
 
@@ -387,4 +389,6 @@ def gen_scenario(rng: random.Random, name: str, ids=None) -> DScn:
     s.rtc = rng.random() < 0.8
     s.subclass = rng.random() < 0.15
     s.placeholders = rng.random() < 0.25
+    if rng.random() < 0.2 and not s.subclass and not s.states_dict:
+        s.override = rng.randrange(n)
     return s
